@@ -33,7 +33,21 @@ func (d *driver) driveRevisions(ntraces, nops int) {
 		}
 		size := func() int { return len(tr.state().Roots) }
 		fl := func(classes ...string) string { return flaw(rng, 4, classes...) }
+		// TIME: in every fourth trace the chain is mined to one block before the contract's proof height, then
+		// to exactly the proof height, then past it -- with requests in between (from the proof height on
+		// every revising request is too late: no revision could be confirmed any more)
+		deadline := map[int]int{} // op index -> tip height relative to the proof height to mine to
+		if n%4 == 1 {
+			at := ops/3 + rng.Intn(ops/6+1)
+			deadline[at], deadline[at+3+rng.Intn(3)], deadline[at+8+rng.Intn(3)] = -1, 0, 1
+		}
 		for op := 0; op < ops && !tr.bad; op++ {
+			if rel, ok := deadline[op]; ok {
+				st := tr.state()
+				if blocks := int(st.Revision.ProofHeight) + rel - int(d.e.CM.Tip().Height); blocks > 0 {
+					tr.do(Act{Op: "Mine", N: blocks})
+				}
+			}
 			if op == renewAt {
 				d.exchange(Act{Op: "BeginRenew", S: 1, Kind: pick(rng, "renew", "refresh", "refreshpartial"), Pf: flaw(rng, 10, pfClasses...), Cf: flaw(rng, 10, "badsig", "stale"), Rf: flaw(rng, 18, "bad", "poolbad"), NA: renewA, NC: renewC},
 					"Round2Renew", flaw(rng, 25, "bad", "other", "replay", "badinput", "badinput"), pick(rng, "finish", "finish", "finish", "abort2", "abort1"))
